@@ -7,6 +7,10 @@ PROPOSED_PATCH = {k: list(v) for k, v in C19_PATCH.items()}
 PROPOSED_PATCH["daemon/proxyd.c"] = PROPOSED_PATCH["daemon/proxyd.c"] + [
     # F. a frame may fill every line of the buffer
     (r"assert\(p_buf->line_count < p_buf->max_lines\);", "assert(p_buf->line_count <= p_buf->max_lines);"),
+    # I. force-free drops only the oldest frame: the head must be sampled before the loop (releasing it makes the next frame the head,
+    #    and clients later in the list that are waiting for THAT frame would lose it too)
+    (r"for \(req = proxy\.p_clnts; req != NULL; req = req->p_next\)\n(\s*)\{\n(\s*)if \(req->p_sliced == p_proxy_dev->p_sliced\)",
+     "PROXY_QUEUE * p_head = p_proxy_dev->p_sliced;\n\\1for (req = proxy.p_clnts; req != NULL; req = req->p_next)\n\\1{\n\\2if (req->p_sliced == p_head)"),
     # G. reference accounting follows the cursors: a client with frames still pending references the new frame too,
     #    even if a service re-computation (norm change, other client's request) left it without granted services
     (r"\(req->state == REQ_STATE_FORWARD\) &&\n(\s*)\(req->all_services != 0\) \)",
@@ -20,7 +24,11 @@ U = ["src/inout.c", "src/misc.c"]
 def obligations(tier, seed):
     patch = PROPOSED_PATCH if (os.environ.get("C18_PROPOSED_PATCH") == "1" or os.environ.get("C19_PROPOSED_PATCH") == "1") else None
     RB = ["vbi_proxyd_acq_thread"]
-    common = dict(harness="h_c18.c", units=U, models=M, stubs=STUBS, patch=patch, ignore=UB_IGNORE, remove_bodies=RB)
+    # the sliced indication is allocated with its actual size (24 + 64 n bytes) and filled through a VBIPROXY_MSG pointer (992 byte type):
+    # CBMC flags the dereference of the oversized type; the bytes actually accessed are checked by the array-bounds / memcpy checks and
+    # by the send() model, which reads all n bytes it is given
+    IGN = UB_IGNORE + [r"vbi_proxyd_send_sliced:dereference failure: pointer outside object bounds in p_msg->body"]
+    common = dict(harness="h_c18.c", units=U, models=M, stubs=STUBS, patch=patch, ignore=IGN, remove_bodies=RB)
     g = lambda **kw: dict(kw)
     INV = ["queue invariant (asserted again after every step): every queued frame is referenced exactly by the clients whose cursor is at or before it, "
            "cursors point into the queue of their device, no buffer both queued and free, lists acyclic; <= 1 token owner; device open <=> capture present"]
@@ -38,5 +46,29 @@ def obligations(tier, seed):
            defines=dict(W_MAXLINES=1, C19_MAXLINES=1, W_NBUF=3),
            grid=[g(NCL=3, NQ=q, BDEV=b) for q in (0, 1, 2, 3) for b in (0, 1)], quick_grid=[g(NCL=3, NQ=0, BDEV=0), g(NCL=3, NQ=2, BDEV=0), g(NCL=3, NQ=3, BDEV=1)],
            reach=["end", "queued"], timeout=300, mem_gb=3, vin_size=4096, **common),
+        # queue_delivery_step (h_send in the harness: one vbi_proxyd_send_sliced + release from an arbitrary queue state, 2-line frames) is NOT scheduled:
+        # measured 3 encodings, each > 7 GB in propositional reduction without verdict (157..200 s to the memory cap).  The delivery step is covered,
+        # for one-line frames, by seq_schedule below.
+        Ob("seq_schedule", func="h_seq", unwind=6, unwindset={"memcmp.0": 66, "c19_log_send.0": 90, "c19_log_send.1": 6},
+           desc="SEQ against a shadow model: 2 subscribed clients, empty queue, 4 events in the order given by the grid (F = frame captured with <= 1 symbolic line and "
+                "symbolic time stamp, W0/W1 = client idle and writable, D0/D1 = client disconnects): the messages handed to send() for client i are, in capture order, "
+                "exactly once, the frames captured while it was connected, each filtered to its granted services, with the capture time stamp; when the daemon runs out of "
+                "buffers only the oldest frame is lost and only by the clients that had not read it; queue invariant after every event",
+           encodes=["vbi_proxyd_forward_data", "vbi_proxy_queue_get_free", "vbi_proxy_queue_force_free", "vbi_proxyd_send_sliced", "vbi_proxy_queue_release_sliced",
+                    "vbi_proxyd_close", "vbi_proxy_msg_write", "vbi_proxy_msg_handle_write"],
+           bounds="k = 4 events, 2 clients, 3 one-line buffers (exact-size objects; with 2-line buffers one instance needed > 27 GB); schedules enumerated on the grid (not symbolic: a symbolic schedule merges pointer states and stalls symex), "
+                  "all frame data / services symbolic; sockets take whole messages",
+           outside="SERVICE_REQ inside the schedule (step contract in C19 msg_take); partial writes; 3 clients",
+           defines=dict(W_MAXLINES=1, C19_MAXLINES=1, W_NBUF=3, C19_SENDBYTES=88, NCL=2, NQ=0, C19_NIO=4),
+           grid=[g(E0=a, E1=b, E2=c, E3=d) for (a, b, c, d) in ((1, 1, 2, 3), (1, 2, 1, 2), (1, 4, 1, 3), (1, 1, 3, 2), (1, 3, 1, 2), (1, 1, 5, 2), (2, 1, 1, 2))],
+           quick_grid=[g(E0=1, E1=1, E2=2, E3=3), g(E0=1, E1=4, E2=1, E3=3)],
+           reach=["end", "delivered"], timeout=900, mem_gb=6, vin_size=4096, **common),
+        Ob("seq_overflow", func="h_seq", unwind=6, unwindset={"memcmp.0": 66, "c19_log_send.0": 90, "c19_log_send.1": 6},
+           desc="SEQ, stalled client: 2 buffers, three frames captured while client 1 never reads, client 0 reads after each pair: as seq_schedule (a stalled client costs "
+                "the others nothing but the frames the daemon has no buffer for)",
+           encodes=["vbi_proxyd_forward_data", "vbi_proxy_queue_force_free", "vbi_proxyd_send_sliced", "vbi_proxy_queue_release_sliced"],
+           bounds="as seq_schedule with 2 buffers", defines=dict(W_MAXLINES=1, C19_MAXLINES=1, W_NBUF=2, C19_SENDBYTES=88, NCL=2, NQ=0, C19_NIO=4),
+           grid=[g(E0=1, E1=1, E2=1, E3=2), g(E0=1, E1=2, E2=1, E3=1)], quick_grid=[g(E0=1, E1=1, E2=1, E3=2)],
+           reach=["end", "delivered"], timeout=900, mem_gb=6, vin_size=4096, tier="thorough", **common),
     ]
     return obs
